@@ -18,7 +18,7 @@ import (
 // C10 — ROM bus readers/writers stay inside the addressed bank and obey io contracts.
 
 type c10Op struct {
-	Kind string `json:"kind"` // "write", "copy" (write via io.Copy from a plain reader), "alias" (the written slice is an overlapping part of the image itself), "grow" (Contents re-allocated), "reopen", "read"
+	Kind string `json:"kind"` // "write", "copy" (write via io.Copy from a plain reader), "alias" (the written slice is an overlapping part of the image itself), "string" (io.WriteString), "grow" (Contents re-allocated), "reopen", "read"
 	N    int    `json:"n"`    // write length / read buffer size
 	Seed uint32 `json:"seed"` // write data = Mix(seed, i)
 }
@@ -29,6 +29,10 @@ type c10Case struct {
 	Bank  uint32  `json:"bank"`
 	Off   uint32  `json:"off"`
 	Ops   []c10Op `json:"ops"`
+	// Hdr: where the caller says the image's header is - nothing the bus windows depend on: 0 = as NewROM leaves it
+	// ($7FB0), 1 = HeaderOffset set to $FFB0 (a HiROM image), 2 = set to 0, 3 = set to $81B0 (copier header),
+	// 4 = the ROM is a struct literal with just the contents
+	Hdr int `json:"hdr,omitempty"`
 }
 
 var (
@@ -73,6 +77,16 @@ func c10Run(c c10Case, short int) error {
 	rom, err := snes.NewROM("c10", img)
 	if err != nil {
 		return fmt.Errorf("NewROM: %v", err)
+	}
+	switch c.Hdr {
+	case 1:
+		rom.HeaderOffset = 0xFFB0
+	case 2:
+		rom.HeaderOffset = 0
+	case 3:
+		rom.HeaderOffset = 0x81B0
+	case 4:
+		rom = &snes.ROM{Name: "c10", Contents: img}
 	}
 	addr := c.Bank<<16 | c.Off
 	cmp := func(when string) error {
@@ -128,7 +142,7 @@ func c10Run(c c10Case, short int) error {
 			copy(bigger, rom.Contents)
 			rom.Contents = bigger
 			rd, got, eof = nil, 0, false // a reader is a snapshot of the window it was created over; a new one (from position 0) is taken afterwards
-		case "write", "copy", "alias":
+		case "write", "copy", "alias", "string":
 			if dead {
 				continue // position after a failed write is not specified: the writer is not used again
 			}
@@ -162,6 +176,9 @@ func c10Run(c c10Case, short int) error {
 				var n64 int64
 				n64, e = io.Copy(w, plainReader{bytes.NewReader(data)})
 				n = int(n64)
+			} else if op.Kind == "string" {
+				// text goes through an io.Writer with the standard helper (which prefers a WriteString method if there is one)
+				n, e = io.WriteString(w, string(data))
 			} else {
 				n, e = w.Write(src)
 			}
@@ -354,6 +371,9 @@ func c10Gen(t *rapid.T) c10Case {
 		c.Tail = rapid.IntRange(1, 0x7FFF).Draw(t, "tail")
 	}
 	c.Bank = uint32(rapid.IntRange(0, c.Banks-1).Draw(t, "bank"))
+	if rapid.IntRange(0, 3).Draw(t, "header-elsewhere") == 0 {
+		c.Hdr = rapid.IntRange(1, 4).Draw(t, "hdr")
+	}
 	if big && rapid.IntRange(0, 3).Draw(t, "high-bank") != 0 {
 		c.Bank = uint32(rapid.IntRange(0x80, c.Banks-1).Draw(t, "bank-high"))
 	}
@@ -408,6 +428,8 @@ func c10Gen(t *rapid.T) c10Case {
 				kind = "copy"
 			case n > 1 && v == 2:
 				kind = "alias"
+			case v == 3:
+				kind = "string"
 			}
 			c.Ops = append(c.Ops, c10Op{Kind: kind, N: n, Seed: rapid.Uint32().Draw(t, "data")})
 			if o+n <= L {
@@ -442,7 +464,7 @@ func init() {
 func TestC10(t *testing.T) {
 	rig.Main(t, "C10", "rapid histories over ROM.BusWriter/BusReader: image of 1-8 banks (+tail; 129-256 banks in 0.1% of the cases, then mostly addressed at banks >= $80), writes from fresh buffers, through io.Copy and from overlapping slices of the image itself, bus address with edge-biased offset, up to 8 ops "+
 		"(writes whose lengths are solved to end 2/1 before, at and 1-3 beyond the window end, writer re-opens, reads with drawn buffer sizes) "+
-		"against a reference window model; the whole image is compared with the model after every call.  Non-trivial = offset >= $8000 and at least one "+
+		"against a reference window model; the whole image is compared with the model after every call; plus one write/read history in each of the 256 banks of an 8 MiB image.  Non-trivial = offset >= $8000 and at least one "+
 		"write, or any op at an offset below $8000; distinct = hash(case).",
 		func(r *rig.Run) {
 			ev := r.Ev
@@ -461,7 +483,7 @@ func TestC10(t *testing.T) {
 					if op.Kind == "alias" {
 						ev.Class("written-slice-overlaps-its-destination-in-the-image")
 					}
-					if op.Kind == "write" || op.Kind == "copy" || op.Kind == "alias" {
+					if op.Kind == "write" || op.Kind == "copy" || op.Kind == "alias" || op.Kind == "string" {
 						nw++
 						if o+op.N > L {
 							over = true
@@ -491,10 +513,25 @@ func TestC10(t *testing.T) {
 				if c.Banks > 1 {
 					ev.Class("multi-bank")
 				}
+				if c.Hdr != 0 {
+					ev.Class("HeaderOffset-elsewhere-or-ROM-built-as-a-struct-literal")
+				}
 				if c.Bank >= 0x80 {
 					ev.Class("bank>=$80-of-an-image-beyond-4MiB")
 				}
 			})
+			// every bank of an 8 MiB image once: a window is the same 32 KiB wherever in the image it lies
+			if rig.Shard() == 2%rig.Shards() {
+				for b := 0; b < 256; b++ {
+					c := c10Case{Banks: 256, Bank: uint32(b), Off: []uint32{0x8000, 0xFFF8, 0xC123}[b%3],
+						Ops: []c10Op{{Kind: "write", N: 5, Seed: uint32(b)*2654435761 + 1}, {Kind: "read", N: 9}}}
+					if !r.CheckSweep("rapid", c, func() error { return c10Check(c) }) {
+						break
+					}
+					ev.Case(true, rig.Hash64("every-bank", b), func() interface{} { return c })
+					ev.Class("every-bank-of-an-8MiB-image")
+				}
+			}
 			ev.Assumption("after a write that reported an error and n stored bytes the writer continues at position+n (successive stored writes stay contiguous)")
 		})
 }
